@@ -17,7 +17,7 @@ fn op_skipped(a: &Analysis, op: usize) -> bool {
 fn inline_runs(a: &Analysis, ci: usize, pre: usize, post: usize, key: Key) -> (BTreeMap<Inst, u32>, bool) {
     let mut m = BTreeMap::new();
     let mut busy_bodies = false;
-    for r in a.runs.iter() {
+    for r in a.runs_in(pre, post).iter() {
         if r.pos > pre && r.pos < post {
             if !r.cmds.is_empty() {
                 busy_bodies = true;
@@ -348,28 +348,31 @@ pub fn c16(cx: &Ctx) -> (Vec<Violation>, Cover) {
                     (None, _) => {
                         // Classify: were the entity's triggers removed, or the entity despawned, between the cause
                         // of this reaction and the run (i.e. while the reaction was already scheduled)?
-                        let cause_pos = r
-                            .obs
-                            .payload_ids()
-                            .first()
-                            .and_then(|id| cx.dels.iter().find(|d| d.key == Key::Pay(*id)).map(|d| d.pre))
-                            .or_else(|| {
-                                let keys = keys_of_obs(&r.obs);
-                                cx.dels.iter().filter(|d| keys.contains(&d.key) && d.pre < r.pos && d.exp.iter().any(|e| e.inst == r.inst && e.total > 0)).map(|d| d.pre).last()
-                            })
-                            .or_else(|| {
-                                r.obs.seen().iter().find_map(|s| match s {
-                                    Seen::Rem(c, e) => a.removals.iter().filter(|x| x.ent == *e && x.comp == *c && x.pos < r.pos && !x.by_despawn).map(|x| x.pos).last(),
-                                    _ => None,
-                                })
-                            });
+                        // Candidate causes: the delivery that carried the payload (unambiguous), otherwise every earlier
+                        // delivery / removal with this run's key - a postponed or polled reaction carries no identity,
+                        // so the run may belong to any of them.
+                        let mut candidates: Vec<usize> = vec![];
+                        if let Some(p) = r.obs.payload_ids().first().and_then(|id| cx.dels.iter().find(|d| d.key == Key::Pay(*id)).map(|d| d.pre)) {
+                            candidates.push(p);
+                        } else {
+                            let keys = keys_of_obs(&r.obs);
+                            candidates.extend(cx.dels.iter().filter(|d| keys.contains(&d.key) && d.pre < r.pos && a.cmds[d.cmd].op == r.op && d.exp.iter().any(|e| e.inst == r.inst && e.total > 0)).map(|d| d.pre));
+                            for s in r.obs.seen().iter() {
+                                if let Seen::Rem(c, e) = s {
+                                    candidates.extend(a.removals.iter().filter(|x| x.ent == *e && x.comp == *c && x.pos < r.pos && x.op == r.op && !x.by_despawn).map(|x| x.pos));
+                                }
+                            }
+                        }
+                        let cause_pos = candidates.iter().copied().max();
                         let class = match (cause_pos, src) {
-                            (Some(cp), Some(e)) => {
-                                let removed = a.cmds.iter().any(|c| {
-                                    matches!(&c.act, RAct::EwRemove { inst, ents, .. } if *inst == r.inst && ents.contains(&e))
-                                        && c.post.map(|p| p > cp && p < r.pos).unwrap_or(false)
+                            (Some(_), Some(e)) => {
+                                let removed = candidates.iter().any(|cp| {
+                                    a.cmds.iter().any(|c| {
+                                        matches!(&c.act, RAct::EwRemove { inst, ents, .. } if *inst == r.inst && ents.contains(&e))
+                                            && c.post.map(|p| p > *cp && p < r.pos).unwrap_or(false)
+                                    })
                                 });
-                                let died = a.deaths.iter().any(|d| d.ent == e && d.pos > cp && d.pos < r.pos);
+                                let died = candidates.iter().any(|cp| a.deaths.iter().any(|d| d.ent == e && d.pos > *cp && d.pos < r.pos));
                                 if removed {
                                     "triggers-removed-while-reaction-pending"
                                 } else if died {
